@@ -16,14 +16,14 @@ import (
 )
 
 type HarnessSpec struct {
-	Pkg     string   `json:"pkg"`  // directory relative to /repo, e.g. x/crosschain/types
-	Func    string   `json:"func"` // harness function name
-	Tiers   []string `json:"tiers,omitempty"`
-	Covers  []string `json:"covers,omitempty"`  // cover labels that must be reached (vacuity guard)
-	PanicOK bool     `json:"panic_ok,omitempty"`
-	What    string   `json:"what,omitempty"`
-	MaxPaths int     `json:"max_paths,omitempty"`
-	MaxSteps int64   `json:"max_steps,omitempty"`
+	Pkg      string   `json:"pkg"`  // directory relative to /repo, e.g. x/crosschain/types
+	Func     string   `json:"func"` // harness function name
+	Tiers    []string `json:"tiers,omitempty"`
+	Covers   []string `json:"covers,omitempty"` // cover labels that must be reached (vacuity guard)
+	PanicOK  bool     `json:"panic_ok,omitempty"`
+	What     string   `json:"what,omitempty"`
+	MaxPaths int      `json:"max_paths,omitempty"`
+	MaxSteps int64    `json:"max_steps,omitempty"`
 }
 
 type PropSpec struct {
@@ -146,7 +146,7 @@ func main() {
 
 	tLoad := time.Now()
 	sess, _, err := interp.Load(interp.LoadConfig{
-		RepoDir: *repo, Overlay: overlay, Patterns: roots,
+		RepoDir: *repo, Overlay: overlay, Patterns: roots, AutoRootPrefix: modPath,
 		Env: []string{"GOFLAGS=-mod=mod", "GOPROXY=off", "GOSUMDB=off", "GOTOOLCHAIN=local", "VERIF_TIER=" + *tier},
 	})
 	if err != nil {
